@@ -1014,11 +1014,11 @@ theorem diaDenseCore_abs (L : Dia R) (b t : Dense R) (h : (L.diags.map (·.1)).N
     (htr : t.rows = L.rows) (htc : t.cols = b.cols) (i j : Nat) (hi : i < L.rows) (hj : j < b.cols) :
     (diaDenseCore L b t).abs i j = t.abs i j + ((List.range L.cols).map fun k => L.abs i k * b.abs k j).sum := by
   unfold diaDenseCore
-  have hfast : ((L.rows == L.cols) && !b.fortran && !t.fortran) = true → L.rows = L.cols := by
+  have hfast : ((L.rows == L.cols) && (!b.fortran || b.rows == 1) && (!t.fortran || L.rows == 1)) = true → L.rows = L.cols := by
     intro hh
     simp only [Bool.and_eq_true, beq_iff_eq] at hh
     exact hh.1.1
-  have key := diaRowTerm_sum L h ((L.rows == L.cols) && !b.fortran && !t.fortran) hfast i hi (fun k => b.abs k j)
+  have key := diaRowTerm_sum L h ((L.rows == L.cols) && (!b.fortran || b.rows == 1) && (!t.fortran || L.rows == 1)) hfast i hi (fun k => b.abs k j)
   cases ht : t.fortran
   · simp only [ht] at key
     simp only [Dense.abs, ht, Bool.false_eq_true, if_false, htc]
@@ -1080,6 +1080,122 @@ theorem matmulDiaDense_abs (L : Dia R) (b : Dense R) (s : R) (out : Option (Dens
         rw [h1, if_pos hlt] at hT ⊢
         rw [if_pos hlt, hT]
 end diaDenseFinal
+
+/-! ### `matmul_dense_dia_dense` -/
+section denseDiaThm
+variable {R : Type} [CommRing R]
+
+theorem diaColTerm_sum (Rm : Dia R) (h : (Rm.diags.map (·.1)).Nodup) (fast : Bool) (hfast : fast = true → Rm.rows = Rm.cols)
+    (c : Nat) (hc : c < Rm.cols) (arow : Nat → R) :
+    (Rm.diags.map fun d => diaColTerm Rm.rows Rm.cols fast d c arow).sum
+      = ((List.range Rm.rows).map fun k => arow k * Rm.abs k c).sum := by
+  have hexp : ∀ k : Nat, arow k * Rm.abs k c
+      = (Rm.diags.map fun d => (if ((k : Nat) : Int) = (c : Int) - d.1 then d.2 c * arow k else 0)).sum := by
+    intro k
+    rw [Dia.abs_eq_sum Rm h, ← List.sum_map_mul_left]
+    congr 1
+    apply List.map_congr_left
+    intro d _
+    by_cases hd : d.1 = (c : Int) - (k : Int)
+    · have : ((k : Nat) : Int) = (c : Int) - d.1 := by omega
+      rw [if_pos hd, if_pos this, mul_comm]
+    · have : ¬ ((k : Nat) : Int) = (c : Int) - d.1 := by omega
+      rw [if_neg hd, if_neg this, mul_zero]
+  simp only [hexp]
+  rw [sum_comm_list (List.range Rm.rows) Rm.diags]
+  congr 1
+  apply List.map_congr_left
+  intro d _
+  rw [sum_range_single Rm.rows ((c : Int) - d.1) (fun k => d.2 c * arow k)]
+  unfold diaColTerm
+  simp only []
+  have hk1 : max 0 d.1 + ((c : Int) - max 0 d.1) = (c : Int) := by omega
+  have hk2 : max 0 (-d.1) + ((c : Int) - max 0 d.1) = (c : Int) - d.1 := by omega
+  rw [hk1, hk2, Int.toNat_natCast]
+  cases hf : fast
+  · simp only [Bool.false_eq_true, if_false]
+    have hiff : (0 ≤ (c : Int) - max 0 d.1 ∧ (c : Int) - max 0 d.1 < min (Rm.cols : Int) ((Rm.rows : Int) + d.1) - max 0 d.1)
+        ↔ (0 ≤ (c : Int) - d.1 ∧ (c : Int) - d.1 < Rm.rows) := by
+      have : (c : Int) < Rm.cols := by exact_mod_cast hc
+      omega
+    by_cases hcnd : 0 ≤ (c : Int) - d.1 ∧ (c : Int) - d.1 < Rm.rows
+    · rw [if_pos (hiff.mpr hcnd), if_pos hcnd]
+    · rw [if_neg (fun h' => hcnd (hiff.mp h')), if_neg hcnd]
+  · simp only [if_true]
+    have hsq : (Rm.rows : Int) = Rm.cols := by exact_mod_cast hfast hf
+    have hiff : (0 ≤ (c : Int) - max 0 d.1 ∧ (c : Int) - max 0 d.1 < (Rm.cols : Int) - (Int.natAbs d.1 : Nat))
+        ↔ (0 ≤ (c : Int) - d.1 ∧ (c : Int) - d.1 < Rm.rows) := by
+      have : (c : Int) < Rm.cols := by exact_mod_cast hc
+      omega
+    by_cases hcnd : 0 ≤ (c : Int) - d.1 ∧ (c : Int) - d.1 < Rm.rows
+    · rw [if_pos (hiff.mpr hcnd), if_pos hcnd]
+    · rw [if_neg (fun h' => hcnd (hiff.mp h')), if_neg hcnd]
+
+theorem denseDiaCore_abs (a : Dense R) (Rm : Dia R) (t : Dense R) (h : (Rm.diags.map (·.1)).Nodup)
+    (htr : t.rows = a.rows) (htc : t.cols = Rm.cols) (i j : Nat) (hi : i < a.rows) (hj : j < Rm.cols) :
+    (denseDiaCore a Rm t).abs i j = t.abs i j + ((List.range Rm.rows).map fun k => a.abs i k * Rm.abs k j).sum := by
+  unfold denseDiaCore
+  have hfast : ((Rm.rows == Rm.cols) && (a.fortran || a.cols == 1) && (t.fortran || Rm.cols == 1)) = true → Rm.rows = Rm.cols := by
+    intro hh
+    simp only [Bool.and_eq_true, beq_iff_eq] at hh
+    exact hh.1.1
+  have key := diaColTerm_sum Rm h ((Rm.rows == Rm.cols) && (a.fortran || a.cols == 1) && (t.fortran || Rm.cols == 1)) hfast j hj (fun k => a.abs i k)
+  cases ht : t.fortran
+  · simp only [ht] at key
+    simp only [Dense.abs, ht, Bool.false_eq_true, if_false, htc]
+    rw [if_pos (lt_mul_of_lt hi hj), div_of_mul_add hj, mod_of_mul_add hj, foldl_add_eq_sum]
+    simp only [Dense.abs] at key
+    rw [key]
+  · simp only [ht] at key
+    simp only [Dense.abs, ht, if_true, htr]
+    have h1 : i + j * a.rows = j * a.rows + i := Nat.add_comm _ _
+    rw [h1, if_pos (by rw [Nat.mul_comm a.rows Rm.cols]; exact lt_mul_of_lt hj hi), div_of_mul_add hi, mod_of_mul_add hi,
+      foldl_add_eq_sum]
+    simp only [Dense.abs] at key
+    rw [key]
+end denseDiaThm
+
+section denseDiaFinal
+variable {R : Type} [CommRing R] [DecidableEq R]
+
+/-- **`matmul_dense_dia_dense` computes `scale · A · R (+ out)`** for a diagonal-format right operand with distinct stored
+offsets, in all three accumulation branches and all four ways the result is delivered. -/
+theorem matmulDenseDia_abs (a : Dense R) (Rm : Dia R) (s : R) (out : Option (Dense R)) (h : (Rm.diags.map (·.1)).Nodup)
+    (hout : ∀ o, out = some o → o.rows = a.rows ∧ o.cols = Rm.cols) (i j : Nat) (hi : i < a.rows) (hj : j < Rm.cols) :
+    (matmulDenseDia a Rm s out).abs i j
+      = (match out with | some o => o.abs i j | none => 0) + s * ((List.range Rm.rows).map fun k => a.abs i k * Rm.abs k j).sum := by
+  have hz : ∀ f, (denseDiaCore a Rm (Dense.ofFn a.rows Rm.cols f fun _ _ => 0)).abs i j
+      = ((List.range Rm.rows).map fun k => a.abs i k * Rm.abs k j).sum := by
+    intro f
+    rw [denseDiaCore_abs a Rm _ h (by simp [Dense.ofFn]) (by simp [Dense.ofFn]) i j hi hj, zeros_abs a.rows Rm.cols f i j hi hj, zero_add]
+  unfold matmulDenseDia
+  cases out with
+  | some o =>
+    obtain ⟨hor, hoc⟩ := hout o rfl
+    simp only []
+    by_cases hs : s = 1
+    · rw [if_pos hs, hs, one_mul]
+      exact denseDiaCore_abs a Rm o h hor hoc i j hi hj
+    · rw [if_neg hs]
+      rw [iaddDense_abs o _ s (by unfold denseDiaCore; simp [Dense.ofFn, hor]) (by unfold denseDiaCore; simp [Dense.ofFn, hoc]) i j
+        (by rw [hor]; exact hi) (by rw [hoc]; exact hj), hz]
+  | none =>
+    simp only [zero_add]
+    by_cases hs : s = 1
+    · rw [if_pos hs, hs, one_mul]
+      exact hz _
+    · rw [if_neg hs]
+      have hT := hz a.fortran
+      cases hb : a.fortran
+      · simp only [Dense.abs, denseDiaCore, Dense.ofFn, hb, Bool.false_eq_true, if_false] at hT ⊢
+        rw [if_pos (lt_mul_of_lt hi hj)] at hT ⊢
+        rw [if_pos (lt_mul_of_lt hi hj), hT]
+      · simp only [Dense.abs, denseDiaCore, Dense.ofFn, hb, if_true] at hT ⊢
+        have h1 : i + j * a.rows = j * a.rows + i := Nat.add_comm _ _
+        have hlt : j * a.rows + i < a.rows * Rm.cols := by rw [Nat.mul_comm a.rows Rm.cols]; exact lt_mul_of_lt hj hi
+        rw [h1, if_pos hlt] at hT ⊢
+        rw [if_pos hlt, hT]
+end denseDiaFinal
 
 /-- **a specialisation constructed by inserting conversions computes the same operation**: if the
 registered implementation refines `f` on the meanings and every converter preserves the meaning, so
